@@ -1,5 +1,5 @@
 import FimVerif.Proofs.Lemmas.TopoAtomic
-import FimVerif.Proofs.Lemmas.TopoInvComp
+import FimVerif.Proofs.Lemmas.TopoInvFac
 /-!
 # C07 — models built through the topology API satisfy the published rules; views are exact
 
@@ -14,18 +14,24 @@ Proved here:
 * `vocab_covers_enums`, `rules_pinned` - the vocabularies of the published rules cover the API's enums (regenerated tables);
 * `views_exact_*` - the views list exactly the elements of their class;
 * `inv_empty : Inv Topo.empty`;
-* `inv_op` - each covered call (add_node, add_component, add_storage, add_interface, add_link, connect_interface, set/unset
-  property, rename) keeps `InvS` (= `Inv` without the name scopes), whether it returns or raises, under the
-  decidable guard `CoveredS s op` (argument types from the API's enums, handles refer to elements of their class, uuids are
-  fresh, no ServicePort handed to add_link/connect, add_interface not used to make a ServicePort);
-  `inv_history_partial : ValidS ops s -> InvS s -> InvS (run ops s)` by induction over the history;
-* `invD_op`, `invD_history_partial` - the same for the downward-closed invariant `InvD` ("at most one" owner/parent/peer)
-  over the larger alphabet that also has every removing call, disconnect and remove_interface (any state, any outcome);
+* `invD_op`, `invD_history_partial` - EVERY building call of the model (`TopoOp`, 23 calls) keeps the downward-closed invariant
+  `InvD` (ids distinct, no dangling edge, vocabularies, containment structure / links join only interfaces, at most one owner
+  per component, at most one service or parent per interface, at most one peer per ServicePort), in any state and for any
+  outcome (return, raise, raise after a rollback), under the decidable guard `CoveredD s op`: argument types come from the API's
+  enums, handles refer to elements of their class (no id recycled under another class), uuids are fresh, no ServicePort is
+  handed to add_link / connect_interface.  By induction: `ValidD ops s -> InvD s -> InvD (run ops s)`;
+* `inv_op`, `inv_history_partial` - every creating / property call (add_node, add_component, add_storage, add_network_service on
+  topology and node, add_facility, add_switch, add_interface, add_link, connect_interface, set/unset property, rename) keeps
+  `InvS` (= `Inv` without the name scopes: "exactly one" owner / parent / peer) under `CoveredS s op` (the guards above, plus:
+  add_interface is not used to make a ServicePort; a service constructor / composite that raises after its rollback handler
+  ran has left the model unchanged - C09's subject, proved there for at most one interface).  add_component / add_storage
+  are covered at every point where the non-atomic call can stop;
 * `inv_setProps`, `inv_unsetProp`, `inv_addNode` - the full `Inv`, name scopes included, for these calls;
 * `_counterexample` theorems for the conjuncts the unchanged code breaks (known findings): rename to an existing name,
-  add_interface twice with one name, add_interface(ServicePort), add_link on a ServicePort.
-NOT covered (oracle only): add_network_service (both forms), add_facility, add_switch for `InvS`/`InvD` (add_component and
-add_storage are covered for `InvS`, at every point where the non-atomic call can stop); "exactly one" after removals (C08's subject); the name scopes for every call but the three above.
+  add_interface twice with one name, add_interface(ServicePort), add_link on a ServicePort, connect_interface deriving one
+  name twice.
+NOT proved (oracle + correspondence only): "exactly one" (`InvS`) after the removing calls, disconnect_interface and
+remove_interface - that removals leave no orphan is C08's subject; the name scopes for every call but the three above.
 -/
 namespace FimVerif.C07
 open FimVerif FimVerif.M FimVerif.Topo FimVerif.Gen
@@ -238,12 +244,10 @@ instance (s : Topo) (o : Option (List IfArg)) : Decidable (NoSpOpt s o) := by ca
 /-- uuid4 returns ids that are not in the model -/
 def FreshTwo (s : Topo) (c : Nat) : Prop := ∀ m ∈ s.nodes, m.nid ≠ .gen c ∧ m.nid ≠ .gen (c + 1)
 instance (s : Topo) (c : Nat) : Decidable (FreshTwo s c) := by unfold FreshTwo; infer_instance
-instance (s : Topo) (i : String) : Decidable (NameHyp s i) := by unfold NameHyp IsOwnerCls; infer_instance
 
 def ConnectOk (s : Topo) (c : Nat) (svc : Nid) : IfArg → Prop
   | .bogus => True
-  | .iface iid iname => HandleOk s svc .networkService ∧ HandleOk s iid .connectionPoint ∧ FreshTwo s c ∧ NameHyp s iname ∧
-      NoSpIn s [.iface iid iname]
+  | .iface iid iname => HandleOk s svc .networkService ∧ HandleOk s iid .connectionPoint ∧ FreshTwo s c ∧ NoSpIn s [.iface iid iname]
 instance (s : Topo) (c : Nat) (svc : Nid) (i : IfArg) : Decidable (ConnectOk s c svc i) := by
   cases i <;> unfold ConnectOk <;> infer_instance
 
@@ -252,24 +256,33 @@ def CoveredS (s : Topo) : TopoOp → Prop
   | .addNode _ _ a => TypeArgOk .networkNode a.ntype
   | .addComponent _ _ parent _ => HandleOk s parent .networkNode
   | .addStorage _ _ parent _ _ _ => HandleOk s parent .networkNode
+  | .addService fl c a => SvcGuards s c none a ∧ ReturnsOrUnchanged (addService fl c a) s
+  | .nodeAddService fl c parent a => SvcGuards s c (some parent) a ∧ ReturnsOrUnchanged (nodeAddService fl c parent a) s
   | .nsAddInterface _ _ svc _ _ _ itype _ => HandleOk s svc .networkService ∧ TypeArgOk .connectionPoint itype ∧ NotSp itype
   | .addLink _ _ _ _ ltype ifs _ _ => TypeArgOk .link ltype ∧ NoSpOpt s ifs
   | .connect _ c svc _ i => ConnectOk s c svc i
+  | .addFacility fl c n i st t np ifs kw => TypeArgOk .networkService t ∧ ReturnsOrUnchanged (addFacility fl c n i st t np ifs kw) s
+  | .addSwitch fl c n i st t np ports => TypeArgOk .networkService t ∧ ReturnsOrUnchanged (addSwitch fl c n i st t np ports) s
   | .setProps _ _ => True
   | .unsetProp _ _ => True
   | .rename _ _ _ => True
   | _ => False
 
-/-- the alphabet for the downward-closed invariant: every removing call as well (add_component / add_storage are proved for `InvS` only) -/
+/-- the alphabet for the downward-closed invariant: every removing call as well, and add_network_service whatever its outcome -/
 def CoveredD (s : Topo) : TopoOp → Prop
   | .addNode _ _ a => TypeArgOk .networkNode a.ntype
+  | .addComponent _ _ parent _ => HandleOk s parent .networkNode
+  | .addStorage _ _ parent _ _ _ => HandleOk s parent .networkNode
+  | .addService _ c a => SvcGuards s c none a
+  | .nodeAddService _ c parent a => SvcGuards s c (some parent) a
   | .nsAddInterface _ _ svc _ _ _ itype _ => HandleOk s svc .networkService ∧ TypeArgOk .connectionPoint itype
   | .addLink _ _ _ _ ltype ifs _ _ => TypeArgOk .link ltype ∧ NoSpOpt s ifs
   | .connect _ c svc _ i => ConnectOk s c svc i
   | .setProps _ _ | .unsetProp _ _ | .rename _ _ _ => True
   | .nsRemoveInterface _ _ _ | .disconnect _ _ | .removeNode _ | .removeFacility _ | .removeSwitch _ | .removeLink _
   | .removeService _ | .nodeRemoveService _ _ | .removeComponent _ _ => True
-  | .addComponent .. | .addStorage .. | .nodeAddService .. | .addService .. | .addFacility .. | .addSwitch .. => False
+  | .addFacility _ _ _ _ _ t _ _ _ => TypeArgOk .networkService t
+  | .addSwitch _ _ _ _ _ t _ _ => TypeArgOk .networkService t
 
 instance (s : Topo) (op : TopoOp) : Decidable (CoveredS s op) := by cases op <;> unfold CoveredS <;> infer_instance
 instance (s : Topo) (op : TopoOp) : Decidable (CoveredD s op) := by cases op <;> unfold CoveredD <;> infer_instance
@@ -306,13 +319,17 @@ theorem inv_op (s : Topo) (op : TopoOp) (hc : CoveredS s op) (h : InvS s) : InvS
   case addNode fl c a => exact invS_addNode fl c a s hc h
   case addComponent fl c p a => exact invS_addComponent fl c p a s hc h
   case addStorage fl c p n i pr => exact invS_addStorage fl c p n i pr s hc h
+  case addService fl c a => exact invS_addService fl c a s hc.1 hc.2 h
+  case nodeAddService fl c p a => exact invS_nodeAddService fl c p a s hc.1 hc.2 h
   case nsAddInterface fl c svc ca n i t p => exact invS_nsAddInterface fl c svc ca n i t p s hc.1 hc.2.1 hc.2.2 h
   case addLink fl c n i lt ifs t p =>
     exact invS_addLink fl c n i lt ifs t p s hc.1 (fun l hl => by have := hc.2; rw [hl] at this; exact this) h
   case connect fl c svc ca i =>
     cases i with
     | bogus => exact h
-    | iface iid iname => exact invS_connect fl c svc iid iname ca s hc.1 hc.2.1 hc.2.2.1 hc.2.2.2.1 hc.2.2.2.2 h
+    | iface iid iname => exact invS_connect fl c svc iid iname ca s hc.1 hc.2.1 hc.2.2.1 hc.2.2.2 h
+  case addFacility fl c n i st t np ifs kw => exact invS_addFacility fl c n i st t np ifs kw s hc.1 hc.2 h
+  case addSwitch fl c n i st t np ports => exact invS_addSwitch fl c n i st t np ports s hc.1 hc.2 h
   case setProps i p => exact (preserves_setProps keyStable_invS.map i p).h s h
   case unsetProp i g => exact (preserves_unsetProp keyStable_invS.map i g).h s h
   case rename c i n => exact (preserves_rename keyStable_invS c i n).h s h
@@ -320,13 +337,19 @@ theorem inv_op (s : Topo) (op : TopoOp) (hc : CoveredS s op) (h : InvS s) : InvS
 theorem invD_op (s : Topo) (op : TopoOp) (hc : CoveredD s op) (h : InvD s) : InvD (step op s).2 := by
   cases op <;> simp only [CoveredD] at hc <;> simp only [step] <;> rw [state_bind_pure _ _ (fun _ _ => rfl)]
   case addNode fl c a => exact invD_addNode fl c a s hc h
+  case addComponent fl c p a => exact invD_addComponent fl c p a s hc h
+  case addStorage fl c p n i pr => exact invD_addStorage fl c p n i pr s hc h
+  case addService fl c a => exact invD_addService fl c a s hc h
+  case nodeAddService fl c p a => exact invD_nodeAddService fl c p a s hc h
   case nsAddInterface fl c svc ca n i t p => exact invD_nsAddInterface fl c svc ca n i t p s hc.1 hc.2 h
   case addLink fl c n i lt ifs t p =>
     exact invD_addLink fl c n i lt ifs t p s hc.1 (fun l hl => by have := hc.2; rw [hl] at this; exact this) h
   case connect fl c svc ca i =>
     cases i with
     | bogus => exact h
-    | iface iid iname => exact invD_connect fl c svc iid iname ca s hc.1 hc.2.1 hc.2.2.1 hc.2.2.2.1 hc.2.2.2.2 h
+    | iface iid iname => exact invD_connect fl c svc iid iname ca s hc.1 hc.2.1 hc.2.2.1 hc.2.2.2 h
+  case addFacility fl c n i st t np ifs kw => exact invD_addFacility fl c n i st t np ifs kw s hc h
+  case addSwitch fl c n i st t np ports => exact invD_addSwitch fl c n i st t np ports s hc h
   case setProps i p => exact (preserves_setProps keyStable_invD.map i p).h s h
   case unsetProp i g => exact (preserves_unsetProp keyStable_invD.map i g).h s h
   case rename c i n => exact (preserves_rename keyStable_invD c i n).h s h
@@ -390,6 +413,20 @@ example : Inv w2 ∧ CoveredS w2 (.connect .experiment 0 (.user "s") [] (.iface 
     CoveredS w2 (.nsAddInterface .experiment 0 (.user "s") [] "i9" none (some "TrunkPort") []) ∧
     CoveredS w2 (.addLink .experiment 0 "l1" none (some "L2Path") (some [.iface (.user "f1") "p1", .iface (.user "f2") "p2"]) none []) ∧
     (step (.connect .experiment 0 (.user "s") [] (.iface (.user "f1") "p1")) w2).2.nodes.length = 7 := by decide
+/-- ... a covered add_network_service over two interfaces that returns (5 + service + 2 ServicePorts + 2 Links) -/
+example : CoveredS w2 (.addService .experiment 0 ⟨"s2", none, some "L2Bridge", none, none, [], [.iface (.user "f1") "p1", .iface (.user "f2") "p2"]⟩) ∧
+    (step (.addService .experiment 0 ⟨"s2", none, some "L2Bridge", none, none, [], [.iface (.user "f1") "p1", .iface (.user "f2") "p2"]⟩) w2).2.nodes.length = 10 := by
+  decide
+/-- ... a covered add_facility / add_switch that return ... -/
+example : CoveredS w2 (.addFacility .experiment 0 "fac" none (some "RENC") (some "VLAN") [] none []) ∧
+    CoveredS w2 (.addSwitch .substrate 0 "sw1" (some (.user "sw")) (some "RENC") (some "P4") [] [("p1", "-int1", []), ("p2", "-int2", [])]) ∧
+    (step (.addSwitch .substrate 0 "sw1" (some (.user "sw")) (some "RENC") (some "P4") [] [("p1", "-int1", []), ("p2", "-int2", [])]) w2).2.nodes.length = 9 := by
+  decide
+/-- ... a history over the larger alphabet with removals satisfies `ValidD` ... -/
+example : ValidD [.addNode .experiment 0 ⟨"n1", none, some "RENC", some "VM", []⟩,
+                  .addComponent .experiment 1 (.gen 0) ⟨"nic1", none, some "SmartNIC", some "ConnectX-6", none, none, none, []⟩,
+                  .addService .experiment 5 ⟨"s1", none, some "L2Bridge", none, none, [], [.iface (.gen 3) "nic1-p1"]⟩,
+                  .removeLink "n1-nic1-p1-link", .removeComponent (.gen 0) "nic1", .removeNode "n1"] Topo.empty := by decide
 /-- ... and a covered add_component that expands to a component, its service and two interfaces (9 elements) -/
 example : CoveredS w2 (.addComponent .experiment 0 (.user "n") ⟨"nic1", none, some "SmartNIC", some "ConnectX-6", none, none, none, []⟩) ∧
     (step (.addComponent .experiment 0 (.user "n") ⟨"nic1", none, some "SmartNIC", some "ConnectX-6", none, none, none, []⟩) w2).2.nodes.length = 9 ∧
